@@ -194,6 +194,22 @@ func (p *Primary) OnWALSync(upToSeq uint64) {
 	}
 }
 
+// OnWALRotated implements wal.WALRotationObserver: the storage manager
+// replaced the log (memtable flush), the new WAL is the one that receives the
+// writes, knows the next sequence number and can read every log file back.
+func (p *Primary) OnWALRotated(newWAL *wal.WAL) {
+	p.mu.Lock()
+	p.wal = newWAL
+	p.mu.Unlock()
+}
+
+// currentWAL returns the WAL that is live now.
+func (p *Primary) currentWAL() *wal.WAL {
+	p.mu.RLock()
+	defer p.mu.RUnlock()
+	return p.wal
+}
+
 // StreamWAL implements WALReplicationServiceServer.StreamWAL
 func (p *Primary) StreamWAL(
 	req *proto.WALStreamRequest,
@@ -279,7 +295,7 @@ func (p *Primary) StreamWAL(
 			return ctx.Err()
 		case <-ticker.C:
 			// Check if we have new entries to send
-			currentSeq := p.wal.GetNextSequence() - 1
+			currentSeq := p.currentWAL().GetNextSequence() - 1
 			if currentSeq > session.LastAckSequence {
 				log.Info("Checking for new entries: currentSeq=%d > lastAck=%d",
 					currentSeq, session.LastAckSequence)
@@ -622,12 +638,13 @@ func (p *Primary) resendEntries(session *ReplicaSession, fromSequence uint64) er
 // getWALEntriesFromSequence retrieves WAL entries starting from the specified sequence
 // in batches of up to maxEntriesToReturn entries at a time
 func (p *Primary) getWALEntriesFromSequence(fromSequence uint64) ([]*wal.Entry, error) {
-	p.mu.RLock()
-	defer p.mu.RUnlock()
+	// Only the reference is read under the lock: the log takes its own mutex,
+	// which a writer holds while it notifies this primary.
+	w := p.currentWAL()
 
 	// Get current sequence in WAL (next sequence - 1)
 	// We subtract 1 to get the current highest assigned sequence
-	currentSeq := p.wal.GetNextSequence() - 1
+	currentSeq := w.GetNextSequence() - 1
 
 	log.Info("GetWALEntriesFromSequence called with fromSequence=%d, currentSeq=%d",
 		fromSequence, currentSeq)
@@ -640,7 +657,7 @@ func (p *Primary) getWALEntriesFromSequence(fromSequence uint64) ([]*wal.Entry, 
 
 	// Use the WAL's built-in method to get entries starting from the specified sequence
 	// This preserves the original keys and values exactly as they were written
-	allEntries, err := p.wal.GetEntriesFrom(fromSequence)
+	allEntries, err := w.GetEntriesFrom(fromSequence)
 	if err != nil {
 		log.Error("Failed to get WAL entries: %v", err)
 		return nil, fmt.Errorf("failed to get WAL entries: %w", err)
@@ -811,7 +828,7 @@ func (p *Primary) maybeManageWALRetention() {
 		MinSequenceKeep: minAcknowledgedSeq,
 	}
 
-	filesDeleted, err := p.wal.ManageRetention(config)
+	filesDeleted, err := p.currentWAL().ManageRetention(config)
 	if err != nil {
 		log.Error("Failed to manage WAL retention: %v", err)
 		return
@@ -833,7 +850,7 @@ func (p *Primary) Close() error {
 	}
 
 	// Unregister from WAL
-	p.wal.UnregisterObserver("primary_replication")
+	p.currentWAL().UnregisterObserver("primary_replication")
 
 	// Close all replica sessions
 	p.mu.Lock()
